@@ -248,6 +248,9 @@ func freshStd() {
 
 func main() {
 	noopts := len(os.Args) > 1 && os.Args[1] == "noopts"
+	// "conc": only the concurrent mode is run, so that the two goroutines are the FIRST users of whatever the
+	// programs touch in this process (lazily initialised shared state is then initialised under the race detector)
+	conconly := len(os.Args) > 1 && os.Args[1] == "conc"
 	in := bufio.NewScanner(os.Stdin)
 	in.Buffer(make([]byte, 1<<20), 1<<26)
 	out := bufio.NewWriter(os.Stdout)
@@ -279,6 +282,20 @@ func main() {
 		sched := f[3]
 		na, nb := len(strings.Split(A, "\n--\n")), len(strings.Split(B, "\n--\n"))
 		pa, pb := planOf(sched, 'A', 'a', 'x', na), planOf(sched, 'B', 'b', 'y', nb)
+		if conconly {
+			freshStd()
+			var ca, cb string
+			var wg sync.WaitGroup
+			start := make(chan struct{})
+			wg.Add(2)
+			go func() { defer wg.Done(); <-start; ca = solo(A, pa, optsA...) }()
+			go func() { defer wg.Done(); <-start; cb = solo(B, pb) }()
+			close(start)
+			wg.Wait()
+			fmt.Fprintf(out, "%s CA:%s CB:%s\n", f[0], ca, cb)
+			out.Flush()
+			continue
+		}
 		freshStd()
 		sa := solo(A, pa, optsA...)
 		freshStd()
